@@ -695,7 +695,7 @@ def rule_raw_passthrough(ctx):
             n += 1
             gc = guard_chain(r)
             under_switch = any(pol and norm(t) == SWITCH for t, pol, _ in gc)
-            ext_branch = any(pol and "extension-definition--" in norm(t) and "property-extension" in norm(t) for t, pol, _ in gc)
+            ext_branch = any(pol and "extension-definition--" in norm(t) and "extension_type" in norm(t) for t, pol, _ in gc)
             c = key(rel, fi.qualname, "return-raw:%s" % ("allow_custom" if under_switch else ("new-object-extension" if ext_branch else "unguarded")))
             if under_switch:
                 run.ok(R, c)
